@@ -611,6 +611,12 @@ fn check_program(
         }
     }
 
+    // (6) the public entry points (`Program::eval*`, slippage hard-wired to 200) agree with the
+    // machine driven directly: same result, same cost, and they honour the budget they are given.
+    if succeeded {
+        entry_points(ctx, &case, prog, cfg, &reference, (c_cpu, c_mem));
+    }
+
     // (4) golden oracle
     // Only the v3 corpus: the v2 `.budget.expected` files were produced upstream under a
     // parameter vector that is not in this tree (machine step cost 23000 instead of the 16000 of
@@ -946,6 +952,86 @@ fn check_program(
     }
 }
 
+/// `Program::<NamedDeBruijn>::{eval_version, eval_version_with_protocol, eval_as,
+/// eval_as_with_protocol, eval_debug}` against the directly driven machine.
+fn entry_points(
+    ctx: &mut RunCtx,
+    case: &Case<'_>,
+    prog: &Prog,
+    cfg: &Config,
+    reference: &Exec,
+    (c_cpu, c_mem): (i64, i64),
+) {
+    let lang = cfg.lang.language();
+    let program = |t: &Term<NamedDeBruijn>| Program::<NamedDeBruijn> {
+        version: (1, 1, 0),
+        term: t.clone(),
+    };
+    let vector: Option<Vec<i64>> = match &cfg.costs {
+        CostVec::Conformance => Some(match cfg.lang {
+            Lang::V3 => corpus().v3_costs.clone(),
+            _ => corpus().v2_costs.clone(),
+        }),
+        CostVec::Scaled(s) => Some(scale(
+            &match cfg.lang {
+                Lang::V3 => corpus().v3_costs.clone(),
+                _ => corpus().v2_costs.clone(),
+            },
+            *s,
+        )),
+        _ => None,
+    };
+    // Which wrapper corresponds to this configuration?
+    let budgets = [
+        ("ample", big()),
+        ("exact", ExBudget { cpu: c_cpu, mem: c_mem }),
+        ("cpu-1", ExBudget { cpu: c_cpu - 1, mem: c_mem }),
+    ];
+    for (label, b) in budgets {
+        let r = guard(|| match (&cfg.costs, &vector) {
+            (CostVec::Default, _) => Some(program(&prog.term).eval_version(b, &lang)),
+            (CostVec::LangProto, _) => Some(program(&prog.term).eval_version_with_protocol(b, &lang, cfg.protocol)),
+            (_, Some(v)) => Some(program(&prog.term).eval_as_with_protocol(&lang, cfg.protocol, v, Some(&b))),
+            _ => None,
+        });
+        ctx.stats.inc("evaluations", 1);
+        ctx.stats.inc("entry_point_evaluations", 1);
+        let Ok(Some(res)) = r else {
+            if let Err(p) = r {
+                ctx.violation(
+                    PROP,
+                    "entry-point",
+                    format!("entry-point|panic|{}", cfg.class()),
+                    format!("program {} under {}: Program::eval* panicked: {} @ {}", prog.id, cfg.class(), p.message, p.location),
+                    case.trace("entry", 200, Some(b)),
+                );
+            }
+            continue;
+        };
+        let cost = res.cost();
+        let ok = res.result().is_ok();
+        let expect_ok = label != "cpu-1";
+        let pretty = res.result().ok().map(|t| t.to_pretty());
+        let bad = if expect_ok {
+            !ok || (cost.cpu, cost.mem) != (c_cpu, c_mem) || pretty.map(Outcome::Value).as_ref() != Some(&reference.outcome)
+        } else {
+            ok
+        };
+        if bad {
+            ctx.violation(
+                PROP,
+                "entry-point",
+                format!("entry-point|{}|{}", cfg.class(), prog.id),
+                format!(
+                    "program {} under {}: the public entry point (Program::eval_version / eval_version_with_protocol / eval_as_with_protocol, slippage 200) given budget {label} cpu={} mem={} returns ok={ok} cost cpu={} mem={}; the machine driven directly costs cpu={c_cpu} mem={c_mem}",
+                    prog.id, cfg.class(), b.cpu, b.mem, cost.cpu, cost.mem
+                ),
+                case.trace("entry", 200, Some(b)),
+            );
+        }
+    }
+}
+
 #[allow(clippy::too_many_arguments)]
 fn budget_point(
     ctx: &mut RunCtx,
@@ -1068,6 +1154,91 @@ fn parse_source(src: &str) -> Option<Term<NamedDeBruijn>> {
     Program::<NamedDeBruijn>::try_from(p).ok().map(|p| p.term)
 }
 
+const COMPILED_RUNS_QUICK: u64 = 140;
+const COMPILED_RUNS_THOROUGH: u64 = 700;
+
+/// Workload W1/W3: programs the real compiler emits — every unit test of an acceptance project (or
+/// of a freshly generated multi-module project) and every property-test fuzzer applied to a seeded
+/// PRNG value. They are much longer than the corpus programs (thousands of machine steps), so the
+/// default batching interval is crossed many times.
+fn compiled_run(ctx: &mut RunCtx, j: u64) {
+    use crate::project::*;
+    use aiken_lang::test_framework::{Prng, Test};
+    let acc = acceptance_projects();
+    let spec = if j % 4 == 3 {
+        crate::genproj::generate(&mut ctx.rng).spec
+    } else {
+        acc[((j - j / 4) as usize) % acc.len()].clone()
+    };
+    ctx.event(&format!("compiled project {}", spec.id));
+    let seed = ctx.rng.below(1 << 30) as u32;
+    let tier = ctx.tier;
+    crate::hashseed::set_epoch(0xC05_0001);
+    let ctx_ref = &mut *ctx;
+    with_pool(1, move || {
+        let ctx = ctx_ref;
+        let disk = RunDisk::new();
+        disk.materialize(&spec, &identity_order(&spec));
+        let mut opts = Opts::default_check();
+        opts.trace_level = ctx.rng.below(3) as u8;
+        let tests = match crate::proptest::compile_all_tests(&disk.root, &opts) {
+            Ok(t) => t,
+            Err(_) => {
+                ctx.stats.inc("compiled_projects_not_compiling", 1);
+                return;
+            }
+        };
+        let mut programs: Vec<(String, Program<uplc::ast::Name>)> = vec![];
+        for t in &tests {
+            match t {
+                Test::UnitTest(u) => programs.push((format!("{}::{}::{}", spec.id, u.module, u.name), u.program.clone())),
+                Test::PropertyTest(p) => programs.push((
+                    format!("{}::{}::{}::fuzzer", spec.id, p.module, p.name),
+                    p.fuzzer.program.apply_data(Prng::from_seed(seed).uplc()),
+                )),
+                Test::Benchmark(_) => {}
+            }
+        }
+        let budget = match tier {
+            Tier::Quick => 6,
+            Tier::Thorough => 12,
+        };
+        if programs.len() > budget {
+            ctx.rng.shuffle(&mut programs);
+            programs.truncate(budget);
+        }
+        for (id, p) in programs {
+            // compiled programs are not reproducible from an id alone: the replay trace carries
+            // their pretty-printed source (named form, which the parser reads back)
+            let src = p.to_pretty();
+            let Ok(named) = Program::<NamedDeBruijn>::try_from(p) else {
+                continue;
+            };
+            // only keep programs whose printed form reads back to the same term
+            if parse_source(&src).as_ref() != Some(&named.term) {
+                ctx.stats.inc("compiled_programs_not_roundtripping_skipped", 1);
+                continue;
+            }
+            let prog = Prog {
+                id,
+                source: ProgSource::Compiled,
+                term: named.term,
+                golden: None,
+                home: Lang::V3,
+            };
+            ctx.stats.inc("runs_compiled_programs", 1);
+            let cfgs = [
+                Config { lang: Lang::V3, protocol: 11, costs: CostVec::Conformance },
+                Config { lang: Lang::V3, protocol: 10, costs: CostVec::Default },
+            ];
+            let cfg = &cfgs[ctx.rng.usize_below(2)];
+            ctx.stats.add("configs", hash_str(&cfg.class()));
+            check_program(ctx, &prog, Some(&src), cfg, None, 4, false);
+        }
+    });
+    crate::hashseed::clear_epoch();
+}
+
 impl Engine for BudgetEngine {
     fn property(&self) -> &'static str {
         PROP
@@ -1081,12 +1252,23 @@ impl Engine for BudgetEngine {
     fn runs(&self, tier: Tier) -> u64 {
         let n = corpus().programs.len() as u64;
         match tier {
-            Tier::Quick => n + 400,
-            Tier::Thorough => 3 * n + 6000,
+            Tier::Quick => n + 400 + COMPILED_RUNS_QUICK,
+            Tier::Thorough => 3 * n + 6000 + COMPILED_RUNS_THOROUGH,
         }
     }
 
     fn run(&self, ctx: &mut RunCtx) {
+        {
+            let n = corpus().programs.len() as u64;
+            let base = match ctx.tier {
+                Tier::Quick => n + 400,
+                Tier::Thorough => 3 * n + 6000,
+            };
+            if ctx.k >= base {
+                compiled_run(ctx, ctx.k - base);
+                return;
+            }
+        }
         let c = corpus();
         let n = c.programs.len() as u64;
         if c.v2_costs.len() < 150 || c.v3_costs.len() < 250 || n < 500 {
@@ -1193,6 +1375,14 @@ impl Engine for BudgetEngine {
         let s = ju64(trace, "slippage") as u32;
         let kind = jstr(trace, "kind");
         match kind.as_str() {
+            "entry" => {
+                let reference = execute(&prog.term, &cfg, big(), 1, true);
+                let (c_cpu, c_mem) = spent(big(), reference.remaining);
+                let case = Case { prog_id: &prog.id, src, cfg: &cfg };
+                if matches!(reference.outcome, Outcome::Value(_)) {
+                    entry_points(ctx, &case, &prog, &cfg, &reference, (c_cpu, c_mem));
+                }
+            }
             "budget" => {
                 let reference = execute(&prog.term, &cfg, big(), 1, true);
                 let (c_cpu, c_mem) = spent(big(), reference.remaining);
